@@ -29,8 +29,8 @@ def patch_list(obj, diff):
         newobj.extend(copy.deepcopy(value) for value in obj[take:index])
 
         if op == DiffOp.ADDRANGE:
-            # Extend with new values directly
-            newobj.extend(e.valuelist)
+            # Extend with (copies of) new values directly
+            newobj.extend(copy.deepcopy(e.valuelist))
             skip = 0
         elif op == DiffOp.REMOVERANGE:
             # Delete a number of values by skipping
@@ -42,14 +42,14 @@ def patch_list(obj, diff):
         # diff algorithm anymore, keeping these cases just in case we want them back:
         elif op == DiffOp.ADD:
             # Append new value directly
-            newobj.append(e.value)
+            newobj.append(copy.deepcopy(e.value))
             skip = 0
         elif op == DiffOp.REMOVE:
             # Delete values obj[index] by incrementing take to skip
             skip = 1
         elif op == DiffOp.REPLACE:
             # Add replacement value and skip old
-            newobj.append(e.value)
+            newobj.append(copy.deepcopy(e.value))
             skip = 1
         else:
             raise NBDiffFormatError("Invalid op {}.".format(op))
@@ -94,12 +94,12 @@ def patch_dict(obj, diff):
 
         if op == DiffOp.ADD:
             assert key not in obj, 'patch add value not found for key: %r' % key
-            newobj[key] = e.value
+            newobj[key] = copy.deepcopy(e.value)
         elif op == DiffOp.REMOVE:
             deleted_keys.add(key)
         elif op == DiffOp.REPLACE:
             assert key not in deleted_keys, 'cannot replace deleted key: %r' % key
-            newobj[key] = e.value
+            newobj[key] = copy.deepcopy(e.value)
         elif op == DiffOp.PATCH:
             assert key not in deleted_keys, 'cannot patch deleted key: %r' % key
             newobj[key] = patch(obj[key], e.diff)
